@@ -33,7 +33,7 @@ local macro "rank_go" hf:ident h0:ident : tactic =>
     have hlr : lr s = if s.lrty then 4 else 0 := rfl
     cases hg : s.gen <;> cases hr : i.srcReady <;> cases hl : s.lrty <;> cases hq : i.retryRequired <;>
       simp [$hf:ident, $h0:ident, hg, hr, hl, hq, fsmNext, genNext, done, lgoodDone, lcrdDone, dispatchNext,
-        generate, ph, nf, nr, en, step_fsm, step_gen] at fa fc fb flg flc fac lgA lcC fA fC g0 lrD lrN hlr hz ⊢ <;>
+        generate, ph, nf, nr, na, en, step_fsm, step_gen] at fa fc fb flg flc fac lgA lcC fA fC g0 lrD lrN hlr hz ⊢ <;>
       (repeat' split) <;> (try simp only [ph] at *) <;> omega))
 
 section
@@ -45,6 +45,7 @@ theorem rankA_step_dispatch (hI : Inv c s g) (hT : T ≤ g.lgoods.length + s.ack
       rankA T ⟨s, g, n⟩ + (if i.retryRequired then 4 else 0) := by
   obtain ⟨fa, fc, fb, flg, flc, fac, a4, a3, bc, bc3, cr, hk, hc, pb, lgA, lcC, fA, fC, g0, en, nf, nr, accA, bcA,
     popB, aL, pL, lrN, lrD, lbI⟩ := facts_of (c := c) hI e
+  have na := no_abort (c := c) hI e
   simp only [World.next, rankA] at hz ⊢
   simp only [flg]
   have h0 : ¬ s.acks = 0 := by
@@ -58,6 +59,7 @@ theorem rankA_step_sendAcks (hI : Inv c s g) (hT : T ≤ g.lgoods.length + s.ack
       rankA T ⟨s, g, n⟩ + (if i.retryRequired then 4 else 0) := by
   obtain ⟨fa, fc, fb, flg, flc, fac, a4, a3, bc, bc3, cr, hk, hc, pb, lgA, lcC, fA, fC, g0, en, nf, nr, accA, bcA,
     popB, aL, pL, lrN, lrD, lbI⟩ := facts_of (c := c) hI e
+  have na := no_abort (c := c) hI e
   simp only [World.next, rankA] at hz ⊢
   simp only [flg]
   by_cases h0 : s.acks = 1
@@ -70,6 +72,7 @@ theorem rankA_step_issueCredits1 (hI : Inv c s g) (hT : T ≤ g.lgoods.length + 
       rankA T ⟨s, g, n⟩ + (if i.retryRequired then 4 else 0) := by
   obtain ⟨fa, fc, fb, flg, flc, fac, a4, a3, bc, bc3, cr, hk, hc, pb, lgA, lcC, fA, fC, g0, en, nf, nr, accA, bcA,
     popB, aL, pL, lrN, lrD, lbI⟩ := facts_of (c := c) hI e
+  have na := no_abort (c := c) hI e
   simp only [World.next, rankA] at hz ⊢
   simp only [flg]
   rank_go hf h0
@@ -80,6 +83,7 @@ theorem rankA_step_issueCreditsN (hI : Inv c s g) (hT : T ≤ g.lgoods.length + 
       rankA T ⟨s, g, n⟩ + (if i.retryRequired then 4 else 0) := by
   obtain ⟨fa, fc, fb, flg, flc, fac, a4, a3, bc, bc3, cr, hk, hc, pb, lgA, lcC, fA, fC, g0, en, nf, nr, accA, bcA,
     popB, aL, pL, lrN, lrD, lbI⟩ := facts_of (c := c) hI e
+  have na := no_abort (c := c) hI e
   simp only [World.next, rankA] at hz ⊢
   simp only [flg]
   rank_go hf h0
@@ -98,6 +102,7 @@ theorem rankA_step_sendLbad (hI : Inv c s g) (hT : T ≤ g.lgoods.length + s.ack
       rankA T ⟨s, g, n⟩ + (if i.retryRequired then 4 else 0) := by
   obtain ⟨fa, fc, fb, flg, flc, fac, a4, a3, bc, bc3, cr, hk, hc, pb, lgA, lcC, fA, fC, g0, en, nf, nr, accA, bcA,
     popB, aL, pL, lrN, lrD, lbI⟩ := facts_of (c := c) hI e
+  have na := no_abort (c := c) hI e
   simp only [World.next, rankA] at hz ⊢
   simp only [flg]
   have h0 : True := trivial
@@ -109,6 +114,7 @@ theorem rankA_step_sendLrty (hI : Inv c s g) (hT : T ≤ g.lgoods.length + s.ack
       rankA T ⟨s, g, n⟩ + (if i.retryRequired then 4 else 0) := by
   obtain ⟨fa, fc, fb, flg, flc, fac, a4, a3, bc, bc3, cr, hk, hc, pb, lgA, lcC, fA, fC, g0, en, nf, nr, accA, bcA,
     popB, aL, pL, lrN, lrD, lbI⟩ := facts_of (c := c) hI e
+  have na := no_abort (c := c) hI e
   simp only [World.next, rankA] at hz ⊢
   simp only [flg]
   have h0 : True := trivial
@@ -120,6 +126,7 @@ theorem rankA_step_sendKeepalive (hI : Inv c s g) (hT : T ≤ g.lgoods.length + 
       rankA T ⟨s, g, n⟩ + (if i.retryRequired then 4 else 0) := by
   obtain ⟨fa, fc, fb, flg, flc, fac, a4, a3, bc, bc3, cr, hk, hc, pb, lgA, lcC, fA, fC, g0, en, nf, nr, accA, bcA,
     popB, aL, pL, lrN, lrD, lbI⟩ := facts_of (c := c) hI e
+  have na := no_abort (c := c) hI e
   simp only [World.next, rankA] at hz ⊢
   simp only [flg]
   have h0 : True := trivial
@@ -131,6 +138,7 @@ theorem rankA_step_sendLxu (hI : Inv c s g) (hT : T ≤ g.lgoods.length + s.acks
       rankA T ⟨s, g, n⟩ + (if i.retryRequired then 4 else 0) := by
   obtain ⟨fa, fc, fb, flg, flc, fac, a4, a3, bc, bc3, cr, hk, hc, pb, lgA, lcC, fA, fC, g0, en, nf, nr, accA, bcA,
     popB, aL, pL, lrN, lrD, lbI⟩ := facts_of (c := c) hI e
+  have na := no_abort (c := c) hI e
   simp only [World.next, rankA] at hz ⊢
   simp only [flg]
   have h0 : True := trivial
@@ -144,6 +152,7 @@ theorem rankA_step (c : Config) (T : Nat) :
   obtain ⟨hI, hT⟩ := hI
   simp only [WOk] at hI hT e
   have F := facts_of (c := c) hI e
+  have na := no_abort (c := c) hI e
   refine ⟨⟨inv_step hI e, ?_⟩, ?_, ?_⟩
   · have h1 := F.acks; have h2 := F.lg; have h3 := F.aL
     simp only [World.next]; omega
